@@ -64,6 +64,70 @@ theorem filter_map_isEmpty (rs : List (Nat × Bool)) :
   | cons r rs ih =>
     cases h : r.2 <;> simp [h, ih]
 
+theorem failDiags_isEmpty (ds : List DiagRun) :
+    (((diagsOf ds).filter (·.2)).map (·.1)).isEmpty =
+      !ds.any (fun d => match d with | .results rs => rs.any (·.2) | .raises => false) := by
+  induction ds with
+  | nil => simp [diagsOf]
+  | cons d ds ih =>
+    cases d with
+    | results rs =>
+      simp only [diagsOf, List.flatMap_cons, List.filter_append, List.map_append, List.any_cons] at ih ⊢
+      have app : ∀ (a b : List Nat), (a ++ b).isEmpty = (a.isEmpty && b.isEmpty) := by
+        intro a b; cases a <;> simp
+      rw [app, ih, filter_map_isEmpty, Bool.not_or]
+    | raises => simpa [diagsOf] using ih
+
+theorem outcome_table (cfg : Cfg) (o : Opts) (inSub isLast : Bool) (inv : Inv) :
+    (finalizeInvocation cfg o inSub isLast inv).outcome = Spec.phaseOutcome cfg o inSub isLast inv := by
+  unfold finalizeInvocation Spec.phaseOutcome
+  simp only [runDiagnosers_eq]
+  generalize hmp : measurementsPass cfg inv.meas = mp
+  generalize hpr : inv.meas.any (· == .partialRaise) = praise
+  generalize har : inv.diags.any (· == .raises) = anyRaise
+  have hfd := failDiags_isEmpty inv.diags
+  generalize hfdv : (inv.diags.any (fun d => match d with | .results rs => rs.any (·.2) | .raises => false)) = failDiag at hfd
+  generalize hfe : (((diagsOf inv.diags).filter (·.2)).map (·.1)).isEmpty = fe at hfd
+  subst hfd
+  cases hraw : inv.raw with
+  | invalid => cases praise <;> cases anyRaise <;> simp [threadResult, finalizeMeasurements, hpr, prediagnosis, postdiagnosis, Res.isTerminal]
+  | timeout => cases praise <;> cases anyRaise <;> simp [threadResult, finalizeMeasurements, hpr, prediagnosis, postdiagnosis, Res.isTerminal]
+  | exc b => cases praise <;> cases anyRaise <;> simp [threadResult, finalizeMeasurements, hpr, prediagnosis, postdiagnosis, Res.isTerminal]
+  | ret r =>
+    cases r <;> cases inSub <;> cases isLast <;> cases praise <;> cases anyRaise <;> cases mp <;> cases failDiag <;>
+      cases hs : o.stopOnMeasFail <;>
+      simp [threadResult, finalizeMeasurements, hpr, prediagnosis, postdiagnosis, Res.isTerminal, hmp, hfe, hs]
+
+
+/-- the record outcome is ERROR exactly when the executor sees a terminal result -/
+theorem error_iff_terminal (cfg : Cfg) (o : Opts) (inSub isLast : Bool) (inv : Inv) :
+    (finalizeInvocation cfg o inSub isLast inv).outcome = .error ↔
+    (finalizeInvocation cfg o inSub isLast inv).effective.isTerminal = true := by
+  unfold finalizeInvocation
+  simp only [runDiagnosers_eq]
+  generalize hmp : measurementsPass cfg inv.meas = mp
+  generalize hpr : inv.meas.any (· == .partialRaise) = praise
+  generalize har : inv.diags.any (· == .raises) = anyRaise
+  generalize hfe : (((diagsOf inv.diags).filter (·.2)).map (·.1)).isEmpty = fe
+  cases hraw : inv.raw with
+  | invalid => cases praise <;> cases anyRaise <;> simp [threadResult, finalizeMeasurements, hpr, prediagnosis, postdiagnosis, Res.isTerminal]
+  | timeout => cases praise <;> cases anyRaise <;> simp [threadResult, finalizeMeasurements, hpr, prediagnosis, postdiagnosis, Res.isTerminal]
+  | exc b => cases praise <;> cases anyRaise <;> simp [threadResult, finalizeMeasurements, hpr, prediagnosis, postdiagnosis, Res.isTerminal]
+  | ret r =>
+    cases r <;> cases inSub <;> cases isLast <;> cases praise <;> cases anyRaise <;> cases mp <;> cases fe <;>
+      cases hs : o.stopOnMeasFail <;>
+      simp [threadResult, finalizeMeasurements, hpr, prediagnosis, postdiagnosis, Res.isTerminal, hmp, hfe, hs]
+
+
+theorem eff_timeout (cfg : Cfg) (o : Opts) (inSub isLast : Bool) (inv : Inv)
+    (h : (finalizeInvocation cfg o inSub isLast inv).effective = .timeout) :
+    (finalizeInvocation cfg o inSub isLast inv).recResult = .timeout := by
+  unfold finalizeInvocation at *
+  simp only at *
+  split at h
+  · simp at h
+  · exact h
+
 /-- one invocation attempt: either nothing is recorded and no body ran (run_if false or raising), or
     exactly one body ran and exactly one record of this phase was appended -/
 theorem once_shape (cfg : Cfg) (p : Phase) (sub : Option Nat) (isLast : Bool) (st : St) :
@@ -229,5 +293,437 @@ where
       rw [execTd_refines cfg ns sub]
 
 end traversal
+
+
+/-! #### the call log only grows -/
+
+/-- the call log only grows -/
+def Ext (a b : St) : Prop := ∃ es, b.events = a.events ++ es
+theorem Ext.refl (a : St) : Ext a a := ⟨[], by simp⟩
+theorem Ext.trans {a b c : St} (h1 : Ext a b) (h2 : Ext b c) : Ext a c := by
+  obtain ⟨e1, h1⟩ := h1; obtain ⟨e2, h2⟩ := h2
+  exact ⟨e1 ++ e2, by rw [h2, h1, List.append_assoc]⟩
+theorem Ext.of_eq {a b : St} (h : b.events = a.events) : Ext a b := ⟨[], by simp [h]⟩
+
+theorem once_ext (cfg : Cfg) (p : Phase) (sub : Option Nat) (isLast : Bool) (st : St) :
+    Ext st (executePhaseOnce cfg p sub isLast st).1 := by
+  unfold executePhaseOnce
+  cases hri : p.opts.runIf with
+  | none => exact ⟨_, by simp [addDiagnoses]; rfl⟩
+  | some f =>
+    simp only
+    cases hf : f (count st.runIfCalls p.id) with
+    | none => exact ⟨_, by simp; rfl⟩
+    | some b =>
+      cases b
+      · exact ⟨_, by simp; rfl⟩
+      · exact ⟨_, by simp [addDiagnoses, List.append_assoc]; rfl⟩
+
+theorem loop_ext (cfg : Cfg) (p : Phase) (sub : Option Nat) (limit : Nat) :
+    ∀ (fuel n : Nat) (st : St), Ext st (executePhaseLoop cfg p sub limit fuel n st).1
+  | 0, n, st => by simp [executePhaseLoop]; exact Ext.refl st
+  | fuel+1, n, st => by
+    simp only [executePhaseLoop]
+    split
+    · exact (once_ext cfg p sub _ st).trans (loop_ext cfg p sub limit fuel (n+1) _)
+    · exact once_ext cfg p sub _ st
+
+theorem finishNode_events (st : St) (o : Res) : (finishNode st o).1.events = st.events := by
+  unfold finishNode; split
+  · simp [setLast]
+  · split <;> rfl
+
+theorem runPhase_ext (cfg : Cfg) (p : Phase) (sub : Option Nat) (st : St) : Ext st (runPhase cfg p sub st).1 := by
+  have h : Ext st (executePhase cfg p sub st).1 := loop_ext cfg p sub _ _ 1 st
+  exact h.trans (Ext.of_eq (finishNode_events _ _))
+
+theorem evalCheckpoint_ext (c : Ckpt) (sub : Option Nat) (st : St) : Ext st (evalCheckpoint c sub st).1 := by
+  exact Ext.of_eq (by simp [evalCheckpoint, finishNode_events])
+
+theorem exec_ext (cfg : Cfg) : ∀ (n : Node) (sub : Option Nat) (td : Bool) (st : St), Ext st (exec cfg n sub td st).1
+  | .phase p, sub, td, st => by
+    simp only [exec, execPhaseNode]
+    split
+    · exact Ext.of_eq (by simp [skipPhase])
+    · exact runPhase_ext cfg p sub st
+  | .checkpoint c, sub, td, st => by
+    simp only [exec, execCheckpoint]
+    split
+    · exact Ext.of_eq rfl
+    · exact evalCheckpoint_ext c sub st
+  | .seq ns, sub, td, st => by
+    simp only [exec]; split
+    · exact execTd_ext cfg ns sub st
+    · exact execAb_ext cfg ns sub st
+  | .subtest name ns, sub, td, st => by
+    simp only [exec]
+    have h0 : Ext st ({ st with subFail := sub.isSome && st.subFail } : St) := Ext.of_eq rfl
+    split
+    · exact h0.trans ((execTd_ext cfg ns (some name) _).trans (Ext.of_eq rfl))
+    · exact h0.trans ((execAb_ext cfg ns (some name) _).trans (Ext.of_eq rfl))
+  | .branch id c ns, sub, td, st => by
+    simp only [exec]
+    split
+    · exact Ext.refl st
+    · split
+      · split
+        · exact (execTd_ext cfg ns sub st).trans (Ext.of_eq rfl)
+        · exact (execAb_ext cfg ns sub st).trans (Ext.of_eq rfl)
+      · exact Ext.of_eq rfl
+  | .group s m t, sub, td, st => by
+    simp only [exec]
+    cases td
+    · simp only [Bool.false_eq_true, if_false]
+      have h1 := execAb_ext cfg s sub st
+      split
+      · exact h1
+      · have h2 := execAb_ext cfg m sub (execAb cfg s sub st).1
+        split
+        · exact h1.trans (h2.trans (execTd_ext cfg t sub _))
+        · exact h1.trans (h2.trans (execAb_ext cfg t sub _))
+    · simp only [if_true]
+      have h1 := execTd_ext cfg s sub st
+      split
+      · exact h1
+      · have h2 := execTd_ext cfg m sub (execTd cfg s sub st).1
+        split
+        · exact h1.trans (h2.trans (execTd_ext cfg t sub _))
+        · exact h1.trans (h2.trans (execAb_ext cfg t sub _))
+where
+  execAb_ext (cfg : Cfg) : ∀ (ns : List Node) (sub : Option Nat) (st : St), Ext st (execAb cfg ns sub st).1
+    | [], sub, st => by simp [execAb]; exact Ext.refl st
+    | n :: ns, sub, st => by
+      simp only [execAb]
+      split
+      · exact exec_ext cfg n sub false st
+      · exact (exec_ext cfg n sub false st).trans (execAb_ext cfg ns sub _)
+  execTd_ext (cfg : Cfg) : ∀ (ns : List Node) (sub : Option Nat) (st : St), Ext st (execTd cfg ns sub st).1
+    | [], sub, st => by simp [execTd]; exact Ext.refl st
+    | n :: ns, sub, st => by
+      simp only [execTd]
+      exact (exec_ext cfg n sub true st).trans (execTd_ext cfg ns sub _)
+
+
+/-! #### ERROR records and the remembered terminal outcome -/
+
+/-- every ERROR record is accompanied by a remembered terminal outcome — except a timeout record
+    (which `repeat_on_timeout` may have retried) -/
+def ErrInv (st : St) : Prop := ∀ r ∈ st.phases, r.outcome = .error → r.result = .timeout ∨ st.last.isSome = true
+
+theorem ErrInv.of_same {a b : St} (hp : b.phases = a.phases) (hl : a.last.isSome = true → b.last.isSome = true) (h : ErrInv a) : ErrInv b := by
+  intro r hr he
+  rw [hp] at hr
+  rcases h r hr he with h1 | h1
+  · exact Or.inl h1
+  · exact Or.inr (hl h1)
+
+theorem setLast_isSome (st : St) (r : Res) : (setLast st r).last.isSome = true := by
+  unfold setLast; cases st.last <;> simp
+
+theorem finishNode_last (st : St) (o : Res) : st.last.isSome = true → (finishNode st o).1.last.isSome = true := by
+  intro h; unfold finishNode; split
+  · exact setLast_isSome st o
+  · split <;> exact h
+theorem finishNode_phases (st : St) (o : Res) : (finishNode st o).1.phases = st.phases := by
+  unfold finishNode; split
+  · simp [setLast]
+  · split <;> rfl
+theorem finishNode_terminal (st : St) (o : Res) (h : o.isTerminal = true) : (finishNode st o).1.last.isSome = true := by
+  unfold finishNode; simp [h, setLast_isSome]
+
+/-- the record written by one invocation is ERROR iff the effective result is terminal, and a terminal
+    effective result that lets the loop continue is a timeout whose record says timeout -/
+theorem once_error (cfg : Cfg) (p : Phase) (sub : Option Nat) (isLast : Bool) (st : St) :
+    let r := executePhaseOnce cfg p sub isLast st
+    r.1.last = st.last ∧
+    ((r.1.phases = st.phases) ∨
+     (∃ rec_, r.1.phases = st.phases ++ [rec_] ∧ (rec_.outcome = .error → r.2.isTerminal = true) ∧
+        (r.2 = .timeout → rec_.result = .timeout))) := by
+  unfold executePhaseOnce
+  cases hri : p.opts.runIf with
+  | none =>
+    refine ⟨by simp [addDiagnoses], Or.inr ⟨_, by simp [addDiagnoses]; rfl, ?_, ?_⟩⟩
+    · intro h; exact (error_iff_terminal cfg p.opts sub.isSome isLast _).mp h
+    · intro h; exact eff_timeout cfg p.opts sub.isSome isLast _ h
+  | some f =>
+    simp only
+    cases hf : f (count st.runIfCalls p.id) with
+    | none => exact ⟨by simp, Or.inl (by simp)⟩
+    | some b =>
+      cases b
+      · exact ⟨by simp, Or.inl (by simp)⟩
+      · refine ⟨by simp [addDiagnoses], Or.inr ⟨_, by simp [addDiagnoses]; rfl, ?_, ?_⟩⟩
+        · intro h; exact (error_iff_terminal cfg p.opts sub.isSome isLast _).mp h
+        · intro h; exact eff_timeout cfg p.opts sub.isSome isLast _ h
+
+/-- loop: all records appended are either non-ERROR, or timeout records, or the final effective result is terminal;
+    `last` is untouched by the loop -/
+theorem loop_error (cfg : Cfg) (p : Phase) (sub : Option Nat) (limit : Nat) :
+    ∀ (fuel n : Nat) (st : St),
+      let r := executePhaseLoop cfg p sub limit fuel n st
+      r.1.last = st.last ∧
+      ∃ recs, r.1.phases = st.phases ++ recs ∧
+        ∀ x ∈ recs, x.outcome = .error → x.result = .timeout ∨ r.2.isTerminal = true
+  | 0, n, st => by simp [executePhaseLoop]
+  | fuel+1, n, st => by
+    simp only [executePhaseLoop]
+    have h1 := once_error cfg p sub (decide (n ≥ limit)) st
+    simp only at h1
+    obtain ⟨hl, hp⟩ := h1
+    split
+    · rename_i hrep
+      have ih := loop_error cfg p sub limit fuel (n + 1) (executePhaseOnce cfg p sub (decide (n ≥ limit)) st).1
+      simp only at ih
+      obtain ⟨il, recs, ip, ie⟩ := ih
+      refine ⟨by rw [il, hl], ?_⟩
+      rcases hp with hp | ⟨rec_, hp, he, ht⟩
+      · exact ⟨recs, by rw [ip, hp], ie⟩
+      · refine ⟨rec_ :: recs, by rw [ip, hp]; simp, ?_⟩
+        intro x hx hxe
+        rcases List.mem_cons.mp hx with rfl | hx
+        · -- the loop continued after an ERROR record: only repeat_on_timeout does that
+          left
+          have hterm := he hxe
+          simp only [Bool.and_eq_true] at hrep
+          have hs := hrep.1
+          unfold shouldRepeat at hs
+          split at hs
+          · rename_i h2; simp at h2; exact ht h2.1
+          · split at hs
+            · rename_i h3; simp at h3; rw [h3] at hterm; simp [Res.isTerminal] at hterm
+            · simp at hs
+        · exact ie x hx hxe
+    · refine ⟨hl, ?_⟩
+      rcases hp with hp | ⟨rec_, hp, he, ht⟩
+      · exact ⟨[], by simp [hp], by simp⟩
+      · exact ⟨[rec_], hp, by intro x hx hxe; simp at hx; subst hx; exact Or.inr (he hxe)⟩
+
+theorem sofOutcome_terminal (cfg : Cfg) (st : St) (r : Res) (h : r.isTerminal = true) : (sofOutcome cfg st r).isTerminal = true := by
+  unfold sofOutcome
+  by_cases hc : (cfg.stopOnFirstFailure && lastIsFail st) = true
+  · rw [if_pos hc]; rfl
+  · rw [if_neg hc]; exact h
+
+theorem runPhase_ErrInv (cfg : Cfg) (p : Phase) (sub : Option Nat) (st : St) (h : ErrInv st) : ErrInv (runPhase cfg p sub st).1 := by
+  unfold runPhase
+  simp only
+  have hl := loop_error cfg p sub (repeatLimit cfg p.opts) (repeatLimit cfg p.opts) 1 st
+  simp only at hl
+  obtain ⟨hlast, recs, hp, he⟩ := hl
+  change (executePhase cfg p sub st).1.last = st.last at hlast
+  change (executePhase cfg p sub st).1.phases = st.phases ++ recs at hp
+  intro r hr hre
+  rw [finishNode_phases, hp] at hr
+  rcases List.mem_append.mp hr with hr | hr
+  · rcases h r hr hre with h1 | h1
+    · exact Or.inl h1
+    · exact Or.inr (finishNode_last _ _ (by rw [hlast]; exact h1))
+  · rcases he r hr hre with h1 | h1
+    · exact Or.inl h1
+    · exact Or.inr (finishNode_terminal _ _ (sofOutcome_terminal _ _ _ h1))
+
+theorem runPhase_last (cfg : Cfg) (p : Phase) (sub : Option Nat) (st : St) (h : st.last.isSome = true) :
+    (runPhase cfg p sub st).1.last.isSome = true := by
+  unfold runPhase
+  have hl := (loop_error cfg p sub (repeatLimit cfg p.opts) (repeatLimit cfg p.opts) 1 st).1
+  exact finishNode_last _ _ (by rw [show (executePhase cfg p sub st).1.last = st.last from hl]; exact h)
+
+theorem evalCheckpoint_ErrInv (c : Ckpt) (sub : Option Nat) (st : St) (h : ErrInv st) : ErrInv (evalCheckpoint c sub st).1 := by
+  unfold evalCheckpoint
+  exact ErrInv.of_same (by rw [finishNode_phases]) (fun hl => finishNode_last _ _ hl) h
+
+/-- the pair (ErrInv, "a remembered terminal outcome is never forgotten") is preserved by the whole traversal -/
+theorem exec_ErrInv (cfg : Cfg) : ∀ (n : Node) (sub : Option Nat) (td : Bool) (st : St),
+    (ErrInv st → ErrInv (exec cfg n sub td st).1) ∧ (st.last.isSome = true → (exec cfg n sub td st).1.last.isSome = true)
+  | .phase p, sub, td, st => by
+    simp only [exec, execPhaseNode]
+    split
+    · constructor
+      · intro h r hr he
+        simp only [skipPhase, List.mem_append, List.mem_singleton] at hr
+        rcases hr with hr | rfl
+        · exact h r hr he
+        · simp at he
+      · intro h; exact h
+    · exact ⟨runPhase_ErrInv cfg p sub st, runPhase_last cfg p sub st⟩
+  | .checkpoint c, sub, td, st => by
+    simp only [exec, execCheckpoint]
+    split
+    · exact ⟨fun h => ErrInv.of_same rfl (fun x => x) h, fun h => h⟩
+    · exact ⟨evalCheckpoint_ErrInv c sub st, fun h => by unfold evalCheckpoint; exact finishNode_last _ _ h⟩
+  | .seq ns, sub, td, st => by
+    simp only [exec]; split
+    · exact execTd_ErrInv cfg ns sub st
+    · exact execAb_ErrInv cfg ns sub st
+  | .subtest name ns, sub, td, st => by
+    simp only [exec]
+    have h0 : ∀ (x : St), ErrInv st → x.phases = st.phases → x.last = st.last → ErrInv x := by
+      intro x h hp hl; exact ErrInv.of_same hp (by rw [hl]; exact fun a => a) h
+    split
+    · have ih := execTd_ErrInv cfg ns (some name) { st with subFail := sub.isSome && st.subFail }
+      exact ⟨fun h => ErrInv.of_same rfl (fun a => a) (ih.1 (h0 _ h rfl rfl)), fun h => ih.2 h⟩
+    · have ih := execAb_ErrInv cfg ns (some name) { st with subFail := sub.isSome && st.subFail }
+      exact ⟨fun h => ErrInv.of_same rfl (fun a => a) (ih.1 (h0 _ h rfl rfl)), fun h => ih.2 h⟩
+  | .branch id c ns, sub, td, st => by
+    simp only [exec]
+    split
+    · exact ⟨fun h => h, fun h => h⟩
+    · split
+      · split
+        · have ih := execTd_ErrInv cfg ns sub st
+          exact ⟨fun h => ErrInv.of_same rfl (fun a => a) (ih.1 h), fun h => ih.2 h⟩
+        · have ih := execAb_ErrInv cfg ns sub st
+          exact ⟨fun h => ErrInv.of_same rfl (fun a => a) (ih.1 h), fun h => ih.2 h⟩
+      · exact ⟨fun h => ErrInv.of_same rfl (fun a => a) h, fun h => h⟩
+  | .group s m t, sub, td, st => by
+    simp only [exec]
+    cases td
+    · simp only [Bool.false_eq_true, if_false]
+      have h1 := execAb_ErrInv cfg s sub st
+      split
+      · exact h1
+      · have h2 := execAb_ErrInv cfg m sub (execAb cfg s sub st).1
+        split
+        · have h3 := execTd_ErrInv cfg t sub (execAb cfg m sub (execAb cfg s sub st).1).1
+          exact ⟨fun h => h3.1 (h2.1 (h1.1 h)), fun h => h3.2 (h2.2 (h1.2 h))⟩
+        · have h3 := execAb_ErrInv cfg t sub (execAb cfg m sub (execAb cfg s sub st).1).1
+          exact ⟨fun h => h3.1 (h2.1 (h1.1 h)), fun h => h3.2 (h2.2 (h1.2 h))⟩
+    · simp only [if_true]
+      have h1 := execTd_ErrInv cfg s sub st
+      split
+      · exact h1
+      · have h2 := execTd_ErrInv cfg m sub (execTd cfg s sub st).1
+        split
+        · have h3 := execTd_ErrInv cfg t sub (execTd cfg m sub (execTd cfg s sub st).1).1
+          exact ⟨fun h => h3.1 (h2.1 (h1.1 h)), fun h => h3.2 (h2.2 (h1.2 h))⟩
+        · have h3 := execAb_ErrInv cfg t sub (execTd cfg m sub (execTd cfg s sub st).1).1
+          exact ⟨fun h => h3.1 (h2.1 (h1.1 h)), fun h => h3.2 (h2.2 (h1.2 h))⟩
+where
+  execAb_ErrInv (cfg : Cfg) : ∀ (ns : List Node) (sub : Option Nat) (st : St),
+      (ErrInv st → ErrInv (execAb cfg ns sub st).1) ∧ (st.last.isSome = true → (execAb cfg ns sub st).1.last.isSome = true)
+    | [], sub, st => by simp [execAb]
+    | n :: ns, sub, st => by
+      simp only [execAb]
+      have h1 := exec_ErrInv cfg n sub false st
+      split
+      · exact h1
+      · have h2 := execAb_ErrInv cfg ns sub (exec cfg n sub false st).1
+        exact ⟨fun h => h2.1 (h1.1 h), fun h => h2.2 (h1.2 h)⟩
+  execTd_ErrInv (cfg : Cfg) : ∀ (ns : List Node) (sub : Option Nat) (st : St),
+      (ErrInv st → ErrInv (execTd cfg ns sub st).1) ∧ (st.last.isSome = true → (execTd cfg ns sub st).1.last.isSome = true)
+    | [], sub, st => by simp [execTd]
+    | n :: ns, sub, st => by
+      simp only [execTd]
+      have h1 := exec_ErrInv cfg n sub true st
+      have h2 := execTd_ErrInv cfg ns sub (exec cfg n sub true st).1
+      exact ⟨fun h => h2.1 (h1.1 h), fun h => h2.2 (h1.2 h)⟩
+
+
+/-! #### generic preservation -/
+
+/-- generic preservation: a predicate that only looks at the phase records and the remembered terminal
+    outcome, and is preserved by running/skipping a phase and evaluating a checkpoint, is preserved by
+    the whole traversal -/
+theorem exec_preserves (cfg : Cfg) (P : St → Prop)
+    (hrun : ∀ p sub st, P st → P (runPhase cfg p sub st).1)
+    (hskip : ∀ p sub st, P st → P (skipPhase p sub st))
+    (hck : ∀ c sub st, P st → P (evalCheckpoint c sub st).1)
+    (hmod : ∀ (a b : St), P a → b.phases = a.phases → b.last = a.last → P b) :
+    ∀ (n : Node) (sub : Option Nat) (td : Bool) (st : St), P st → P (exec cfg n sub td st).1
+  | .phase p, sub, td, st, h => by
+    simp only [exec, execPhaseNode]; split
+    · exact hskip p sub st h
+    · exact hrun p sub st h
+  | .checkpoint c, sub, td, st, h => by
+    simp only [exec, execCheckpoint]; split
+    · exact hmod st _ h rfl rfl
+    · exact hck c sub st h
+  | .seq ns, sub, td, st, h => by
+    simp only [exec]; split
+    · exact lTd ns sub st h
+    · exact lAb ns sub st h
+  | .subtest name ns, sub, td, st, h => by
+    simp only [exec]
+    have h0 := hmod st { st with subFail := sub.isSome && st.subFail } h rfl rfl
+    split
+    · exact hmod _ _ (lTd ns (some name) _ h0) rfl rfl
+    · exact hmod _ _ (lAb ns (some name) _ h0) rfl rfl
+  | .branch id c ns, sub, td, st, h => by
+    simp only [exec]
+    split
+    · exact h
+    · split
+      · split
+        · exact hmod _ _ (lTd ns sub st h) rfl rfl
+        · exact hmod _ _ (lAb ns sub st h) rfl rfl
+      · exact hmod _ _ h rfl rfl
+  | .group s m t, sub, td, st, h => by
+    simp only [exec]
+    cases td
+    · simp only [Bool.false_eq_true, if_false]
+      have h1 := lAb s sub st h
+      split
+      · exact h1
+      · have h2 := lAb m sub _ h1
+        split
+        · exact lTd t sub _ h2
+        · exact lAb t sub _ h2
+    · simp only [if_true]
+      have h1 := lTd s sub st h
+      split
+      · exact h1
+      · have h2 := lTd m sub _ h1
+        split
+        · exact lTd t sub _ h2
+        · exact lAb t sub _ h2
+where
+  lAb : ∀ (ns : List Node) (sub : Option Nat) (st : St), P st → P (execAb cfg ns sub st).1
+    | [], sub, st, h => by simpa [execAb] using h
+    | n :: ns, sub, st, h => by
+      simp only [execAb]
+      have h1 := exec_preserves cfg P hrun hskip hck hmod n sub false st h
+      split
+      · exact h1
+      · exact lAb ns sub _ h1
+  lTd : ∀ (ns : List Node) (sub : Option Nat) (st : St), P st → P (execTd cfg ns sub st).1
+    | [], sub, st, h => by simpa [execTd] using h
+    | n :: ns, sub, st, h => by
+      simp only [execTd]
+      exact lTd ns sub _ (exec_preserves cfg P hrun hskip hck hmod n sub true st h)
+
+/-- only terminal outcomes are ever remembered -/
+def LastTerm (st : St) : Prop := ∀ r, st.last = some r → r.isTerminal = true
+
+theorem finishNode_LastTerm (st : St) (o : Res) (h : LastTerm st) : LastTerm (finishNode st o).1 := by
+  unfold finishNode
+  split
+  · rename_i ht
+    intro r hr
+    simp only [setLast] at hr
+    cases hl : st.last with
+    | none => simp [hl] at hr; rw [← hr]; exact ht
+    | some x => simp [hl] at hr; rw [← hr]; exact h x hl
+  · split <;> exact h
+
+theorem runPhase_LastTerm (cfg : Cfg) (p : Phase) (sub : Option Nat) (st : St) (h : LastTerm st) :
+    LastTerm (runPhase cfg p sub st).1 := by
+  unfold runPhase
+  apply finishNode_LastTerm
+  have hl := (loop_error cfg p sub (repeatLimit cfg p.opts) (repeatLimit cfg p.opts) 1 st).1
+  intro r hr
+  rw [show (executePhase cfg p sub st).1.last = st.last from hl] at hr
+  exact h r hr
+
+theorem exec_LastTerm (cfg : Cfg) (n : Node) (sub : Option Nat) (td : Bool) (st : St) (h : LastTerm st) :
+    LastTerm (exec cfg n sub td st).1 :=
+  exec_preserves cfg LastTerm (runPhase_LastTerm cfg) (fun _ _ _ h => h)
+    (fun c sub st h => by unfold evalCheckpoint; exact finishNode_LastTerm _ _ h)
+    (fun a b h _ hl r hr => by rw [hl] at hr; exact h r hr) n sub td st h
+
+theorem execAb_LastTerm (cfg : Cfg) (ns : List Node) (sub : Option Nat) (st : St) (h : LastTerm st) :
+    LastTerm (execAb cfg ns sub st).1 :=
+  exec_preserves.lAb cfg LastTerm (runPhase_LastTerm cfg) (fun _ _ _ h => h)
+    (fun c sub st h => by unfold evalCheckpoint; exact finishNode_LastTerm _ _ h)
+    (fun a b h _ hl r hr => by rw [hl] at hr; exact h r hr) ns sub st h
 
 end OpenHTF.Exec
